@@ -103,14 +103,30 @@ def list_scheduling_killer(k):
 
 
 # ----------------------------------------------------------------------------- packing / covering
+def free_binsize(rng, base):
+    """
+    Half of the time one of the class's customary bin sizes, otherwise an ARBITRARY integer: mostly 1..250, sometimes up to 5000 or up to 10^7. Arithmetic on the bin size
+    (reciprocals, divisions by 2 and 3, float conversions) behaves specially for a few percent of the integers only (e.g. 49 * (1/49) != 1 in float64), and a fixed menu of
+    round bin sizes never meets them.
+    """
+    x = rng.random()
+    if x < 0.5:
+        return rng.choice(base)
+    if x < 0.85:
+        return rng.randint(1, 250)
+    if x < 0.95:
+        return rng.randint(251, 5000)
+    return rng.randint(5001, 10 ** 7)
+
+
 def pack_instance(rng, cls, nmax=12):
     """(binsize, values) with 0 <= v <= binsize."""
     if cls == "random":
-        C = rng.choice([1, 5, 10, 17, 60, 100, 1000])
+        C = free_binsize(rng, [1, 5, 10, 17, 60, 100, 1000])
         n = rng.randint(1, nmax)
         return C, [rng.randint(0 if rng.random() < 0.2 else 1, C) for _ in range(n)]
     if cls == "hardpack":
-        C = rng.choice([24, 30, 60, 100, 120, 1000])
+        C = max(8, free_binsize(rng, [24, 30, 60, 100, 120, 1000]))
         n = rng.randint(min(4, nmax), nmax)
         pool = [rng.randint(max(1, C // 8), C // 2) for _ in range(rng.randint(2, 5))]
         v = [rng.choice(pool) if rng.random() < 0.7 else rng.randint(max(1, C // 8), C // 2) for _ in range(n)]
@@ -146,7 +162,7 @@ def pack_instance(rng, cls, nmax=12):
         vals = [rng.randint(1, C) for _ in range(rng.randint(2, 4))]
         return C, [rng.choice(vals) for _ in range(rng.randint(12, 16))]
     if cls == "threshold":
-        C = 6 * rng.choice([1, 2, 5, 10, 100])
+        C = 6 * rng.choice([1, 2, 5, 10, 100]) if rng.random() < 0.6 else rng.randint(2, 400)      # thresholds C/2, C/3 are not integers for most free bin sizes: floor/ceil matter
         pts = [C // 2, C // 3, C // 2 + 1, max(1, C // 2 - 1), C // 3 + 1, max(1, C // 3 - 1), C, 1, C // 6 or 1, 2 * C // 3]
         n = rng.randint(2, nmax)
         return C, [rng.choice(pts) for _ in range(n)]
@@ -159,7 +175,7 @@ def pack_instance(rng, cls, nmax=12):
         a = rng.randint(1, C)
         return C, [a] * rng.randint(1, nmax)
     if cls == "planted":
-        return planted_packing(rng, m=rng.randint(1, 4), C=rng.choice([10, 30, 100]), nmax=nmax)[:2]
+        return planted_packing(rng, m=rng.randint(1, 4), C=max(2, free_binsize(rng, [10, 30, 100])), nmax=nmax)[:2]
     if cls == "widerange":
         # huge bin size with items spanning many orders of magnitude: nearly-full items, tiny items, exact fills (relative tolerances / float shortcuts show here only)
         C = rng.choice([10 ** 9, 10 ** 9 + 7, 2 ** 31, 2 ** 40, 2 ** 50, 10 ** 12])
@@ -220,17 +236,17 @@ def arrange(rng, values, order):
 def cover_instance(rng, cls, nmax=12):
     """(binsize, positive values); values may exceed binsize."""
     if cls == "random":
-        C = rng.choice([1, 5, 10, 17, 60, 100, 1000])
+        C = free_binsize(rng, [1, 5, 10, 17, 60, 100, 1000])
         n = rng.randint(1, nmax)
         return C, [rng.randint(1, max(1, int(C * rng.choice([0.3, 0.6, 1.0, 1.5])))) for _ in range(n)]
     if cls == "threshold":
-        C = 6 * rng.choice([1, 2, 5, 10, 100])
+        C = 6 * rng.choice([1, 2, 5, 10, 100]) if rng.random() < 0.6 else rng.randint(2, 400)
         pts = [C // 2, C // 3, C // 2 + 1, max(1, C // 2 - 1), C // 3 + 1, max(1, C // 3 - 1), C, 1, max(1, C // 6), 2 * C // 3, C + 1]
         n = rng.randint(2, nmax)
         return C, [rng.choice(pts) for _ in range(n)]
     if cls == "allbig":
         # every item alone covers a bin (all values >= the bin size), or a single item
-        C = rng.choice([1, 7, 10, 100])
+        C = free_binsize(rng, [1, 7, 10, 100])
         n = rng.choice([1, 1, 2, 3, rng.randint(1, nmax)])
         return C, [rng.randint(C, 3 * C) for _ in range(n)]
     if cls == "toosmall":
@@ -242,7 +258,7 @@ def cover_instance(rng, cls, nmax=12):
         C = rng.choice([10, 12, 100])
         return C, [rng.randint(1, C)] * rng.randint(1, nmax)
     if cls == "planted":
-        C, v, m = planted_packing(rng, m=rng.randint(1, 4), C=rng.choice([10, 30, 100]), nmax=nmax, max_per_bin=4)
+        C, v, m = planted_packing(rng, m=rng.randint(1, 4), C=max(2, free_binsize(rng, [10, 30, 100])), nmax=nmax, max_per_bin=4)
         return C, v
     if cls == "widerange":
         C = rng.choice([6 * 10 ** 9, 3 * 2 ** 40, 10 ** 12, 2 ** 45, 6 * 10 ** 14])
